@@ -67,6 +67,24 @@ def check(chk: Check) -> None:
                         if not N.numeric_guarded(F, a, p.assumptions):
                             problems.append('the %s operand `%s` reaches * without an isinstance(numeric types) guard '
                                             '(Decimal("12") would accept a string)' % (side, show(a)))
+                if not problems and e.kind == 'binop' and p.outcome[0] == 'return':
+                    # the context-rounded result must leave as it is: rebuilding it from its text or through int() turns a
+                    # positive exponent into digits (Decimal(format(d, 'f')) of 1E+60 has 61 of them)
+                    b_ = ('binop', e.op, freeze(l), freeze(r))
+                    v_ = p.outcome[1]
+                    while True:
+                        inner_ = N.is_decimal_ctor(F, v_)
+                        if inner_ is None or not _contains(inner_, b_):
+                            break
+                        if N.is_decimal_ctor(F, inner_) is None and inner_ != b_:
+                            break
+                        v_ = inner_
+                    if isinstance(v_, tuple) and v_[:1] == ('unop',) and v_[1] in ('+', '-', 'USub', 'UAdd') and _contains(v_, b_):
+                        v_ = v_[2]
+                    if v_ != b_ and _contains(v_, b_):
+                        problems.append('the result of `%s` is rebuilt before it is returned (%s): a conversion through text or int() '
+                                        'writes a positive exponent out as digits, so the value that leaves has more than 28 of them'
+                                        % (e.op, show(v_)[:160]))
                 if problems:
                     seen[key] = (False, wh, '; '.join(problems))
                 else:
@@ -108,6 +126,14 @@ def check(chk: Check) -> None:
             chk.ok(R2, ent.label, where, '; '.join(v[1] for v in rets.values()) or 'returns its argument / a Python builtin result')
 
     N.context_untouched(chk, R3)
+
+
+def _contains(t, sub) -> bool:
+    if t == sub:
+        return True
+    if isinstance(t, tuple):
+        return any(_contains(x, sub) for x in t)
+    return False
 
 
 def _local_number(t) -> bool:
